@@ -4,7 +4,7 @@ CONSTANTS
   MaxPerFile = 2
   Emit = TRUE
   Forms = {"rel", "dot", "root", "abs", "schemerel", "up"}
-  Medias = {"", "print", "all and (color)"}
+  Medias = {"", "print", "tv", "all and (color)", "not all"}
 INVARIANT RelToInvertsResolve
 INVARIANT SpecFlattenMeetsContract
 INVARIANT EmitWorld
